@@ -2,14 +2,19 @@
 import json
 import random
 
-from .. import core, flow, oracles_bm as ob
+from .. import core, flow, corr_bm, oracles_bm as ob
 
-PROOFS = ['Tsv.Proofs.C04Alg', 'Tsv.Proofs.C04Levy', 'Tsv.Proofs.C03Alg']  # C03Alg: the Levy areas of stored pieces combine by Chen
+PROOFS = ['Tsv.Proofs.C04Alg', 'Tsv.Proofs.C04Levy', 'Tsv.Proofs.C03Alg', 'Tsv.Proofs.BMCore', 'Tsv.Proofs.C05', 'Tsv.Proofs.C03Model',
+          'Tsv.Proofs.C04Model', 'Tsv.Proofs.C04ModelEx']  # C03Alg: the Levy areas of stored pieces combine by Chen
 TRUSTED = ["Lean 4.33 kernel + Mathlib", "tracer/emitter (validated each run)",
            "a linear image of i.i.d. N(0,1) variables is Gaussian with the Gram covariance (classical, not formalised)",
            "torch.randn under distinct seeds gives independent standard normals; numpy SeedSequence; 32-bit seed collisions",
-           "lifting the single-split law to every reachable tree is by induction over splits (C03 additivity + fresh seeds per "
-           "node); the induction itself is validated on the real objects by the exact Gram oracle, not proved in Lean"]
+           "lifting the single-split law to every tree: C04Model.node_law / disjoint_law / query_WU (second moments of every node, of "
+           "disjoint nodes and of the (W, U) of every resolved query, by induction over the tree of the hand-written object model; "
+           "random variables = elements of a module with a symmetric bilinear form; vecOps_coordinatewise ties the vector-valued split to "
+           "the regenerated kernels; fresh seeds per node enter as the orthonormal-noise hypothesis, checked on the real objects by the "
+           "seed-structure oracle); the Davie/Foster Levy area of an aggregated query and covariances BETWEEN different queries are covered by the exact Gram "
+           "oracle, not by a tree-level theorem"]
 
 
 def oracle(rng, tier):
@@ -26,7 +31,12 @@ def oracle(rng, tier):
 
 def run(rep, tier, seed):
     flow.run_gen(rep, {'Brownian'}, seed, 20 if tier == 'quick' else 200)
-    flow.run_proofs(rep, PROOFS, extra_scan=['Tsv.Gen.Brownian'])
+    flow.run_proofs(rep, PROOFS, extra_scan=['Tsv.Gen.Brownian', 'Tsv.Model.Brownian'])
+    # C04Model speaks about the tree / find / valueAt of the hand-written object model: tie it to the real class here too
+    c = corr_bm.run(random.Random(seed + 5), 5 if tier == 'quick' else 40, 90 if tier == 'quick' else 250)
+    rep.ob('correspondence:brownian-model', f"{c.get('configs', 0)} objects / {c.get('queries', 0)} queries", c['ok'],
+           json.dumps(c.get('mismatches') or c.get('error', ''), default=str)[:1800])
+    rep.cov['correspondence'] = {k: v for k, v in c.items() if k != 'mismatches'}
     fails, stats = oracle(random.Random(seed), tier)
     rep.cov['real_code_oracle'] = stats
     rep.ob('oracle:gram-matrix-on-real-objects', f"{stats['gram']['pairs']} interval pairs", not fails,
